@@ -174,16 +174,22 @@ def interleaved(chk):
 
 def interleaved_remote(chk):
   """stage 'a' in process, stage 'b' on a worker pool fed through a RemoteIteratorQueue on the master."""
-  cases = [(2, 5, 1), (1, 3, 0), (3, 6, 2), (2, 0, 1)]
+  # (workers, elements, buffer[, seconds by which every answer of the second worker is late])
+  cases = [(2, 5, 1), (1, 3, 0), (3, 6, 2), (2, 0, 1), (2, 8, 2, 0.12), (2, 6, 1, 0.12)]
   if chk.tier == 'thorough':
     cases += [(w, n, b) for w in (1, 2, 3) for n in (1, 2, 7) for b in (0, 1, 3)]
-  for workers, n, buf in cases:
-    name = f'interleaved remote workers={workers} n={n} buffer={buf}'
+  for case in cases:
+    workers, n, buf = case[:3]
+    late = case[3] if len(case) > 3 else 0
+    name = f'interleaved remote workers={workers} n={n} buffer={buf}' + (f' answers of worker 2 late by {late}s' if late else '')
     p = lib.two_stage_pipeline(n)
     ref = p.make().iterate()
     ref_outs = sorted(ref)
     ref_agg = ref.agg_result
-    with dist.cluster(workers) as c:
+    with dist.cluster(workers, heartbeat_threshold=1e7) as c:
+      if late:
+        from harness import fakecourier
+        fakecourier.BOARD.reply_delay[c.names[1]] = late
       orch = c.mods.orchestrate
       master = c.mods.courier_server.CourierServer(f'master-{dist._RUN[0]}')
       res = {'a': orch.RunnerResource(buffer_size=buf, timeout=20),
